@@ -1,4 +1,5 @@
 import Blots.Lemmas.EvalEnvClosedCoin
+import Blots.Lemmas.EvalFresh
 /-
   C02 (4), weakening through arbitrary function application.
 
@@ -7,8 +8,9 @@ import Blots.Lemmas.EvalEnvClosedCoin
   head of the frame at depth `k` (`addT t w k s`) is the same run — same outcome, same final
   state with the same extra binding — provided
     * every value bound in the environment is hereditarily closed (`ClosedE`),
-    * the expression does not mention `t`, has no nested `output`, and each of its free names is
-      `inputs` or bound (`FOK n`: in the first `n` frames, `n` arbitrary),
+    * the expression does not touch `t` (`touches`: read, assigned, or free in a function it
+      creates; in particular if `t` is not mentioned at all), has no nested `output`, and each
+      of its free names is `inputs` or bound (`FOK n`: in the first `n` frames, `n` arbitrary),
   and the result (value, environment) is closed again w.r.t. the display names of the final
   state, which only grew.  NOTHING is assumed of the new value `w`.
 
@@ -67,6 +69,116 @@ theorem evalBin_addT (ops : NumOps) {t : String} (w : Value) (ht : t ≠ "inputs
   rw [retail_zero_addAt] at h
   exact wsimC_of_simC h
 
+/-! ### what "the expression does not use the name" has to mean -/
+
+mutual
+/-- `t` is used by `e` at the level `e` itself is evaluated: read as an identifier or shorthand
+    key, assigned, or free in a function created by `e` (then it would be captured).  Unlike
+    `mentions`, parameters and the inside of function bodies do not count: `(t) => t + 1` and
+    `(x) => do { t = x; return t }` do not touch `t`. (`#field` counts as `inputs`.) -/
+def touches (t : String) : Expr → Bool
+  | .ident n => n == t
+  | .inref _ => t == "inputs"
+  | .lambda args body => (freeVars (args.map LArg.name) body).contains t
+  | .assign n v => n == t || touches t v
+  | .bin _ l r => touches t l || touches t r
+  | .un _ e => touches t e
+  | .fact e => touches t e
+  | .spread e => touches t e
+  | .output e => touches t e
+  | .call f args => touches t f || touchesList t args
+  | .access e i => touches t e || touches t i
+  | .dot e _ => touches t e
+  | .cond c a b => touches t c || touches t a || touches t b
+  | .list items => touchesItems t items
+  | .record es => touchesEntries t es
+  | .doBlock stmts ret => touchesItems t stmts || touchesItem t ret
+  | _ => false
+def touchesList (t : String) : List Expr → Bool
+  | [] => false
+  | e :: es => touches t e || touchesList t es
+def touchesItem (t : String) : Item → Bool
+  | .mk _ e _ => touches t e
+def touchesItems (t : String) : List Item → Bool
+  | [] => false
+  | i :: is => touchesItem t i || touchesItems t is
+def touchesEntry (t : String) : Entry → Bool
+  | .mk _ k v _ => touchesKey t k || touches t v
+def touchesEntries (t : String) : List Entry → Bool
+  | [] => false
+  | e :: es => touchesEntry t e || touchesEntries t es
+def touchesKey (t : String) : Key → Bool
+  | .static _ => false
+  | .dyn e => touches t e
+  | .short n => n == t
+  | .spread e => touches t e
+end
+
+mutual
+/-- a name that is not mentioned at all is not touched -/
+theorem touches_of_mentions (t : String) : ∀ (e : Expr), mentions t e = false → touches t e = false
+  | .num _, _ | .str _, _ | .bool _, _ | .null, _ | .builtin _, _ => by simp [touches]
+  | .ident n, h => by simpa [mentions, touches] using h
+  | .inref _, h => by simpa [mentions, touches] using h
+  | .lambda args body, h => by
+    simp only [mentions, Bool.or_eq_false_iff] at h
+    simp only [touches]
+    cases hc : (freeVars (args.map LArg.name) body).contains t with
+    | false => rfl
+    | true =>
+      have := freeVars_mentions body _ t (by simpa using hc)
+      rw [h.2] at this; cases this
+  | .assign n v, h => by
+    simp only [mentions, Bool.or_eq_false_iff] at h
+    simp [touches, h.1, touches_of_mentions t v h.2]
+  | .bin _ l r, h => by
+    simp only [mentions, Bool.or_eq_false_iff] at h
+    simp [touches, touches_of_mentions t l h.1, touches_of_mentions t r h.2]
+  | .un _ e, h => by simp only [mentions] at h; simp [touches, touches_of_mentions t e h]
+  | .fact e, h => by simp only [mentions] at h; simp [touches, touches_of_mentions t e h]
+  | .spread e, h => by simp only [mentions] at h; simp [touches, touches_of_mentions t e h]
+  | .output e, h => by simp only [mentions] at h; simp [touches, touches_of_mentions t e h]
+  | .dot e _, h => by simp only [mentions] at h; simp [touches, touches_of_mentions t e h]
+  | .call f args, h => by
+    simp only [mentions, Bool.or_eq_false_iff] at h
+    simp [touches, touches_of_mentions t f h.1, touchesList_of_mentions t args h.2]
+  | .access e i, h => by
+    simp only [mentions, Bool.or_eq_false_iff] at h
+    simp [touches, touches_of_mentions t e h.1, touches_of_mentions t i h.2]
+  | .cond c a b, h => by
+    simp only [mentions, Bool.or_eq_false_iff] at h
+    simp [touches, touches_of_mentions t c h.1.1, touches_of_mentions t a h.1.2, touches_of_mentions t b h.2]
+  | .list items, h => by simp only [mentions] at h; simp [touches, touchesItems_of_mentions t items h]
+  | .record es, h => by simp only [mentions] at h; simp [touches, touchesEntries_of_mentions t es h]
+  | .doBlock stmts (.mk _ re _), h => by
+    simp only [mentions, mentionsItem, Bool.or_eq_false_iff] at h
+    simp [touches, touchesItem, touchesItems_of_mentions t stmts h.1, touches_of_mentions t re h.2]
+theorem touchesList_of_mentions (t : String) : ∀ (es : List Expr), mentionsList t es = false →
+    touchesList t es = false
+  | [], _ => rfl
+  | e :: es, h => by
+    simp only [mentionsList, Bool.or_eq_false_iff] at h
+    simp [touchesList, touches_of_mentions t e h.1, touchesList_of_mentions t es h.2]
+theorem touchesItems_of_mentions (t : String) : ∀ (is : List Item), mentionsItems t is = false →
+    touchesItems t is = false
+  | [], _ => rfl
+  | .mk _ e _ :: is, h => by
+    simp only [mentionsItems, mentionsItem, Bool.or_eq_false_iff] at h
+    simp [touchesItems, touchesItem, touches_of_mentions t e h.1, touchesItems_of_mentions t is h.2]
+theorem touchesEntries_of_mentions (t : String) : ∀ (es : List Entry), mentionsEntries t es = false →
+    touchesEntries t es = false
+  | [], _ => rfl
+  | .mk _ k v _ :: es, h => by
+    simp only [mentionsEntries, mentionsEntry, Bool.or_eq_false_iff] at h
+    have hk : touchesKey t k = false := by
+      cases k with
+      | static _ => rfl
+      | short n => simpa [mentionsKey, touchesKey] using h.1.1
+      | dyn ke => exact touches_of_mentions t ke (by simpa [mentionsKey] using h.1.1)
+      | spread se => exact touches_of_mentions t se (by simpa [mentionsKey] using h.1.1)
+    simp [touchesEntries, touchesEntry, hk, touches_of_mentions t v h.1.2, touchesEntries_of_mentions t es h.2]
+end
+
 /-! ### the invariant of the weakening induction -/
 
 /-- what is assumed of a state: the frame that gets the extra binding exists, every value bound
@@ -83,23 +195,23 @@ theorem WOK.next {α} {C : List (Nat × String) → α → Prop} {k : Nat} {s : 
   ⟨by rw [hp.keys.below.length h.ne]; exact h.len, hp.cl⟩
 
 structure Weak (ops : NumOps) (t : String) (w : Value) (fuel : Nat) : Prop where
-  eval : ∀ depth e n k s, 0 < n → WOK k s → noOutput e = true → mentions t e = false →
+  eval : ∀ depth e n k s, 0 < n → WOK k s → noOutput e = true → touches t e = false →
     FOK n s.env (FreeIn · e) →
     WSim t w k ClosedV s (eval ops fuel depth e s) (eval ops fuel depth e (addT t w k s))
-  evalList : ∀ depth es n k s, 0 < n → WOK k s → noOutputList es = true → mentionsList t es = false →
+  evalList : ∀ depth es n k s, 0 < n → WOK k s → noOutputList es = true → touchesList t es = false →
     FOK n s.env (FreeInList · es) →
     WSim t w k ClosedL s (evalList ops fuel depth es s) (evalList ops fuel depth es (addT t w k s))
-  evalItems : ∀ depth is n k s, 0 < n → WOK k s → noOutputItems is = true → mentionsItems t is = false →
+  evalItems : ∀ depth is n k s, 0 < n → WOK k s → noOutputItems is = true → touchesItems t is = false →
     FOK n s.env (FreeInItems · is) →
     WSim t w k ClosedL s (evalItems ops fuel depth is s) (evalItems ops fuel depth is (addT t w k s))
   evalEntries : ∀ depth es acc n k s, 0 < n → WOK k s → noOutputEntries es = true →
-    mentionsEntries t es = false → FOK n s.env (FreeInEntries · es) → ClosedR s.names acc →
+    touchesEntries t es = false → FOK n s.env (FreeInEntries · es) → ClosedR s.names acc →
     WSim t w k ClosedR s (evalEntries ops fuel depth es acc s) (evalEntries ops fuel depth es acc (addT t w k s))
-  evalDoStmt : ∀ depth e n k s, 0 < n → WOK k s → noOutput e = true → mentions t e = false →
+  evalDoStmt : ∀ depth e n k s, 0 < n → WOK k s → noOutput e = true → touches t e = false →
     FOK n s.env (FreeIn · e) →
     WSim t w k ClosedV s (evalDoStmt ops fuel depth e s) (evalDoStmt ops fuel depth e (addT t w k s))
   evalDo : ∀ depth stmts ret n k s, 0 < n → WOK k s → noOutputItems stmts = true → noOutputItem ret = true →
-    mentionsItems t stmts = false → mentionsItem t ret = false → FOK n s.env (FreeInDo · stmts ret) →
+    touchesItems t stmts = false → touchesItem t ret = false → FOK n s.env (FreeInDo · stmts ret) →
     WSim t w k ClosedV s (evalDo ops fuel depth stmts ret s) (evalDo ops fuel depth stmts ret (addT t w k s))
 
 section
@@ -121,14 +233,14 @@ theorem weak_zero : Weak ops t w 0 := by
 /-! ### lists of expressions, record entries -/
 
 theorem weak_evalList {fuel : Nat} (ih : Weak ops t w fuel) (depth : Nat) (es : List Expr) (n k : Nat) (s : ES)
-    (hn : 0 < n) (hS : WOK k s) (hw : noOutputList es = true) (hm : mentionsList t es = false)
+    (hn : 0 < n) (hS : WOK k s) (hw : noOutputList es = true) (hm : touchesList t es = false)
     (hF : FOK n s.env (FreeInList · es)) :
     WSim t w k ClosedL s (evalList ops (fuel + 1) depth es s) (evalList ops (fuel + 1) depth es (addT t w k s)) := by
   cases es with
   | nil => rw [evalList, evalList]; exact ⟨rfl, Post.same hS.cl (by intro v h; cases h; simp)⟩
   | cons e es =>
     simp only [noOutputList, Bool.and_eq_true] at hw
-    simp only [mentionsList, Bool.or_eq_false_iff] at hm
+    simp only [touchesList, Bool.or_eq_false_iff] at hm
     rw [evalList, evalList]
     obtain ⟨e1, P1⟩ := ih.eval depth e n k s hn hS hw.1 hm.1 (hF.imp fun x hx => .head hx)
     rw [e1]; clear e1
@@ -152,7 +264,7 @@ theorem weak_evalList {fuel : Nat} (ih : Weak ops t w fuel) (depth : Nat) (es : 
     | _ => exact ⟨rfl, P1.re (by intro _ h; cases h)⟩
 
 theorem weak_evalItems {fuel : Nat} (ih : Weak ops t w fuel) (depth : Nat) (is : List Item) (n k : Nat) (s : ES)
-    (hn : 0 < n) (hS : WOK k s) (hw : noOutputItems is = true) (hm : mentionsItems t is = false)
+    (hn : 0 < n) (hS : WOK k s) (hw : noOutputItems is = true) (hm : touchesItems t is = false)
     (hF : FOK n s.env (FreeInItems · is)) :
     WSim t w k ClosedL s (evalItems ops (fuel + 1) depth is s)
       (evalItems ops (fuel + 1) depth is (addT t w k s)) := by
@@ -161,7 +273,7 @@ theorem weak_evalItems {fuel : Nat} (ih : Weak ops t w fuel) (depth : Nat) (is :
   | cons i is =>
     obtain ⟨_, e, _⟩ := i
     simp only [noOutputItems, noOutputItem, Bool.and_eq_true] at hw
-    simp only [mentionsItems, mentionsItem, Bool.or_eq_false_iff] at hm
+    simp only [touchesItems, touchesItem, Bool.or_eq_false_iff] at hm
     rw [evalItems, evalItems]
     obtain ⟨e1, P1⟩ := ih.eval depth e n k s hn hS hw.1 hm.1 (hF.imp fun x hx => .head hx)
     rw [e1]; clear e1
@@ -186,7 +298,7 @@ theorem weak_evalItems {fuel : Nat} (ih : Weak ops t w fuel) (depth : Nat) (is :
 
 theorem weak_evalEntries {fuel : Nat} (ih : Weak ops t w fuel) (depth : Nat) (es : List Entry) (acc : Frame)
     (n k : Nat) (s : ES) (hn : 0 < n) (hS : WOK k s) (hw : noOutputEntries es = true)
-    (hm : mentionsEntries t es = false) (hF : FOK n s.env (FreeInEntries · es)) (hacc : ClosedR s.names acc) :
+    (hm : touchesEntries t es = false) (hF : FOK n s.env (FreeInEntries · es)) (hacc : ClosedR s.names acc) :
     WSim t w k ClosedR s (evalEntries ops (fuel + 1) depth es acc s)
       (evalEntries ops (fuel + 1) depth es acc (addT t w k s)) := by
   cases es with
@@ -194,7 +306,7 @@ theorem weak_evalEntries {fuel : Nat} (ih : Weak ops t w fuel) (depth : Nat) (es
   | cons en es =>
     obtain ⟨_, key, value, _⟩ := en
     simp only [noOutputEntries, noOutputEntry, Bool.and_eq_true] at hw
-    simp only [mentionsEntries, mentionsEntry, Bool.or_eq_false_iff] at hm
+    simp only [touchesEntries, touchesEntry, Bool.or_eq_false_iff] at hm
     have hFt : FOK n s.env (FreeInEntries · es) := hF.imp fun x hx => .tail hx
     cases key with
     | static kk =>
@@ -213,7 +325,7 @@ theorem weak_evalEntries {fuel : Nat} (ih : Weak ops t w fuel) (depth : Nat) (es
       | _ => exact ⟨rfl, P1.re (by intro _ h; cases h)⟩
     | dyn ke =>
       simp only [noOutputKey] at hw
-      simp only [mentionsKey] at hm
+      simp only [touchesKey] at hm
       rw [evalEntries, evalEntries]
       obtain ⟨e1, P1⟩ := ih.eval depth ke n k s hn hS hw.1.1 hm.1.1 (hF.imp fun x hx => .head (.dynK hx))
       rw [e1]; clear e1
@@ -242,7 +354,7 @@ theorem weak_evalEntries {fuel : Nat} (ih : Weak ops t w fuel) (depth : Nat) (es
         | _ => exact ⟨rfl, P1.re (by intro _ h; cases h)⟩
       | _ => exact ⟨rfl, P1.re (by intro _ h; cases h)⟩
     | short nm =>
-      simp only [mentionsKey, beq_eq_false_iff_ne] at hm
+      simp only [touchesKey, beq_eq_false_iff_ne] at hm
       rw [evalEntries, evalEntries]
       have hg' : envGet (addT t w k s).env nm = envGet s.env nm := envGet_addAt t w hm.1.1 k s.env
       rw [hg']
@@ -253,7 +365,7 @@ theorem weak_evalEntries {fuel : Nat} (ih : Weak ops t w fuel) (depth : Nat) (es
           (closedR_insertAL (closed_envGet hS.cl hg) hacc)
     | spread se =>
       simp only [noOutputKey] at hw
-      simp only [mentionsKey] at hm
+      simp only [touchesKey] at hm
       rw [evalEntries, evalEntries]
       obtain ⟨e1, P1⟩ := ih.eval depth se n k s hn hS hw.1.1 hm.1.1 (hF.imp fun x hx => .head (.spread hx))
       rw [e1]; clear e1
@@ -292,7 +404,7 @@ theorem eq_assign_addT (k : Nat) (s1 : ES) (val : Value) (nm : String) (cv : Val
   simp only [addT, envInsert_addAt t w val hnt k s2.env hk2]
 
 theorem weak_eval (ht : t ≠ "inputs") {fuel : Nat} (ih : Weak ops t w fuel) (depth : Nat) (e : Expr) (n k : Nat)
-    (s : ES) (hn : 0 < n) (hS : WOK k s) (hw : noOutput e = true) (hm : mentions t e = false)
+    (s : ES) (hn : 0 < n) (hS : WOK k s) (hw : noOutput e = true) (hm : touches t e = false)
     (hF : FOK n s.env (FreeIn · e)) :
     WSim t w k ClosedV s (eval ops (fuel + 1) depth e s) (eval ops (fuel + 1) depth e (addT t w k s)) := by
   have hE := hS.ne
@@ -304,7 +416,7 @@ theorem weak_eval (ht : t ≠ "inputs") {fuel : Nat} (ih : Weak ops t w fuel) (d
   | builtin nm => rw [eval, eval]; exact ⟨rfl, Post.same hS.cl (by intro v h; cases h; simp)⟩
   | output inner => simp [noOutput] at hw
   | ident nm =>
-    have hnt : nm ≠ t := by simpa [mentions] using hm
+    have hnt : nm ≠ t := by simpa [touches] using hm
     rw [eval, eval]
     split
     · exact ⟨rfl, Post.same hS.cl (by intro v h; cases h; simp)⟩
@@ -330,7 +442,7 @@ theorem weak_eval (ht : t ≠ "inputs") {fuel : Nat} (ih : Weak ops t w fuel) (d
       | _ => exact ⟨rfl, Post.same hS.cl (by intro _ h; cases h)⟩
   | un op inner =>
     simp only [noOutput] at hw
-    simp only [mentions] at hm
+    simp only [touches] at hm
     rw [eval, eval]
     obtain ⟨e1, P1⟩ := ih.eval depth inner n k s hn hS hw hm (hF.imp fun x hx => .un hx)
     rw [e1]; clear e1
@@ -343,7 +455,7 @@ theorem weak_eval (ht : t ≠ "inputs") {fuel : Nat} (ih : Weak ops t w fuel) (d
     | _ => exact ⟨rfl, P1.re (by intro _ h; cases h)⟩
   | fact inner =>
     simp only [noOutput] at hw
-    simp only [mentions] at hm
+    simp only [touches] at hm
     rw [eval, eval]
     obtain ⟨e1, P1⟩ := ih.eval depth inner n k s hn hS hw hm (hF.imp fun x hx => .fact hx)
     rw [e1]; clear e1
@@ -359,7 +471,7 @@ theorem weak_eval (ht : t ≠ "inputs") {fuel : Nat} (ih : Weak ops t w fuel) (d
     | _ => exact ⟨rfl, P1.re (by intro _ h; cases h)⟩
   | spread inner =>
     simp only [noOutput] at hw
-    simp only [mentions] at hm
+    simp only [touches] at hm
     rw [eval, eval]
     obtain ⟨e1, P1⟩ := ih.eval depth inner n k s hn hS hw hm (hF.imp fun x hx => .spread hx)
     rw [e1]; clear e1
@@ -376,7 +488,7 @@ theorem weak_eval (ht : t ≠ "inputs") {fuel : Nat} (ih : Weak ops t w fuel) (d
     | _ => exact ⟨rfl, P1.re (by intro _ h; cases h)⟩
   | dot inner field =>
     simp only [noOutput] at hw
-    simp only [mentions] at hm
+    simp only [touches] at hm
     rw [eval, eval]
     obtain ⟨e1, P1⟩ := ih.eval depth inner n k s hn hS hw hm (hF.imp fun x hx => .dot hx)
     rw [e1]; clear e1
@@ -392,7 +504,7 @@ theorem weak_eval (ht : t ≠ "inputs") {fuel : Nat} (ih : Weak ops t w fuel) (d
     | _ => exact ⟨rfl, P1.re (by intro _ h; cases h)⟩
   | cond c a b =>
     simp only [noOutput, Bool.and_eq_true] at hw
-    simp only [mentions, Bool.or_eq_false_iff] at hm
+    simp only [touches, Bool.or_eq_false_iff] at hm
     rw [eval, eval]
     obtain ⟨e1, P1⟩ := ih.eval depth c n k s hn hS hw.1.1 hm.1.1 (hF.imp fun x hx => .condC hx)
     rw [e1]; clear e1
@@ -417,7 +529,7 @@ theorem weak_eval (ht : t ≠ "inputs") {fuel : Nat} (ih : Weak ops t w fuel) (d
     | _ => exact ⟨rfl, P1.re (by intro _ h; cases h)⟩
   | access e i =>
     simp only [noOutput, Bool.and_eq_true] at hw
-    simp only [mentions, Bool.or_eq_false_iff] at hm
+    simp only [touches, Bool.or_eq_false_iff] at hm
     rw [eval, eval]
     obtain ⟨e1, P1⟩ := ih.eval depth e n k s hn hS hw.1 hm.1 (hF.imp fun x hx => .accessE hx)
     rw [e1]; clear e1
@@ -449,7 +561,7 @@ theorem weak_eval (ht : t ≠ "inputs") {fuel : Nat} (ih : Weak ops t w fuel) (d
     | _ => exact ⟨rfl, P1.re (by intro _ h; cases h)⟩
   | bin op l r =>
     simp only [noOutput, Bool.and_eq_true] at hw
-    simp only [mentions, Bool.or_eq_false_iff] at hm
+    simp only [touches, Bool.or_eq_false_iff] at hm
     rw [eval, eval]
     obtain ⟨e1, P1⟩ := ih.eval depth l n k s hn hS hw.1 hm.1 (hF.imp fun x hx => .binL hx)
     rw [e1]; clear e1
@@ -476,7 +588,7 @@ theorem weak_eval (ht : t ≠ "inputs") {fuel : Nat} (ih : Weak ops t w fuel) (d
     | _ => exact ⟨rfl, P1.re (by intro _ h; cases h)⟩
   | list items =>
     simp only [noOutput] at hw
-    simp only [mentions] at hm
+    simp only [touches] at hm
     rw [eval, eval]
     obtain ⟨e1, P1⟩ := ih.evalItems depth items n k s hn hS hw hm (hF.imp fun x hx => .list hx)
     rw [e1]; clear e1
@@ -488,7 +600,7 @@ theorem weak_eval (ht : t ≠ "inputs") {fuel : Nat} (ih : Weak ops t w fuel) (d
     | _ => exact ⟨rfl, P1.re (by intro _ h; cases h)⟩
   | record es =>
     simp only [noOutput] at hw
-    simp only [mentions] at hm
+    simp only [touches] at hm
     rw [eval, eval]
     obtain ⟨e1, P1⟩ := ih.evalEntries depth es [] n k s hn hS hw hm (hF.imp fun x hx => .record hx) (by simp)
     rw [e1]; clear e1
@@ -499,7 +611,7 @@ theorem weak_eval (ht : t ≠ "inputs") {fuel : Nat} (ih : Weak ops t w fuel) (d
     | _ => exact ⟨rfl, P1.re (by intro _ h; cases h)⟩
   | assign nm v =>
     simp only [noOutput] at hw
-    simp only [mentions, Bool.or_eq_false_iff, beq_eq_false_iff_ne] at hm
+    simp only [touches, Bool.or_eq_false_iff, beq_eq_false_iff_ne] at hm
     have hcont : ∀ s : ES, alreadyDefined depth (addT t w k s).env nm = alreadyDefined depth s.env nm :=
       fun s => alreadyDefined_addAt t w hm.1 depth k s.env
     rw [eval, eval, hcont s]
@@ -524,7 +636,7 @@ theorem weak_eval (ht : t ≠ "inputs") {fuel : Nat} (ih : Weak ops t w fuel) (d
     | _ => exact ⟨rfl, P1.re (by intro _ h; cases h)⟩
   | lambda args body =>
     simp only [noOutput] at hw
-    simp only [mentions, Bool.or_eq_false_iff] at hm
+    simp only [touches] at hm
     rw [eval, eval]
     split
     · exact ⟨rfl, Post.same hS.cl (by intro _ h; cases h)⟩
@@ -535,8 +647,8 @@ theorem weak_eval (ht : t ≠ "inputs") {fuel : Nat} (ih : Weak ops t w fuel) (d
       intro y hy
       have hyt : y ≠ t := by
         intro e; subst e
-        have := freeVars_mentions body _ y hy
-        rw [hm.2] at this; cases this
+        have : (freeVars (args.map LArg.name) body).contains y = true := by simpa using hy
+        rw [hm] at this; cases this
       exact envGet_addAt t w hyt k s.env
     simp only [hcap]
     refine ⟨rfl, KeysExt.refl _, NamesLe.refl _, hS.cl, ?_⟩
@@ -557,7 +669,7 @@ theorem weak_eval (ht : t ≠ "inputs") {fuel : Nat} (ih : Weak ops t w fuel) (d
         exact h.get
   | doBlock stmts ret =>
     simp only [noOutput, Bool.and_eq_true] at hw
-    simp only [mentions, Bool.or_eq_false_iff] at hm
+    simp only [touches, Bool.or_eq_false_iff] at hm
     rw [eval, eval]
     have hS1 : WOK (k + 1) { s with env := [] :: s.env } :=
       ⟨by simp; exact hS.len, closedE_cons.mpr ⟨by simp, hS.cl⟩⟩
@@ -576,7 +688,7 @@ theorem weak_eval (ht : t ≠ "inputs") {fuel : Nat} (ih : Weak ops t w fuel) (d
     exact KeysExt.refl _
   | call f args =>
     simp only [noOutput, Bool.and_eq_true] at hw
-    simp only [mentions, Bool.or_eq_false_iff] at hm
+    simp only [touches, Bool.or_eq_false_iff] at hm
     rw [eval, eval]
     obtain ⟨e1, P1⟩ := ih.eval depth f n k s hn hS hw.1 hm.1 (hF.imp fun x hx => .callF hx)
     rw [e1]; clear e1
@@ -607,7 +719,7 @@ theorem weak_eval (ht : t ≠ "inputs") {fuel : Nat} (ih : Weak ops t w fuel) (d
 /-! ### do-blocks -/
 
 theorem weak_evalDoStmt {fuel : Nat} (ih : Weak ops t w fuel) (depth : Nat) (e : Expr) (n k : Nat) (s : ES)
-    (hn : 0 < n) (hS : WOK k s) (hw : noOutput e = true) (hm : mentions t e = false)
+    (hn : 0 < n) (hS : WOK k s) (hw : noOutput e = true) (hm : touches t e = false)
     (hF : FOK n s.env (FreeIn · e)) :
     WSim t w k ClosedV s (evalDoStmt ops (fuel + 1) depth e s)
       (evalDoStmt ops (fuel + 1) depth e (addT t w k s)) := by
@@ -616,7 +728,7 @@ theorem weak_evalDoStmt {fuel : Nat} (ih : Weak ops t w fuel) (depth : Nat) (e :
   cases e with
   | assign nm v =>
     simp only [noOutput] at hw
-    simp only [mentions, Bool.or_eq_false_iff, beq_eq_false_iff_ne] at hm
+    simp only [touches, Bool.or_eq_false_iff, beq_eq_false_iff_ne] at hm
     dsimp only
     split
     · exact ⟨rfl, Post.same hS.cl (by intro _ h; cases h)⟩
@@ -634,7 +746,7 @@ theorem weak_evalDoStmt {fuel : Nat} (ih : Weak ops t w fuel) (depth : Nat) (e :
 
 theorem weak_evalDo {fuel : Nat} (ih : Weak ops t w fuel) (depth : Nat) (stmts : List Item) (ret : Item)
     (n k : Nat) (s : ES) (hn : 0 < n) (hS : WOK k s) (hw1 : noOutputItems stmts = true)
-    (hw2 : noOutputItem ret = true) (hm1 : mentionsItems t stmts = false) (hm2 : mentionsItem t ret = false)
+    (hw2 : noOutputItem ret = true) (hm1 : touchesItems t stmts = false) (hm2 : touchesItem t ret = false)
     (hF : FOK n s.env (FreeInDo · stmts ret)) :
     WSim t w k ClosedV s (evalDo ops (fuel + 1) depth stmts ret s)
       (evalDo ops (fuel + 1) depth stmts ret (addT t w k s)) := by
@@ -646,7 +758,7 @@ theorem weak_evalDo {fuel : Nat} (ih : Weak ops t w fuel) (depth : Nat) (stmts :
   | cons i rest =>
     obtain ⟨_, e, _⟩ := i
     simp only [noOutputItems, noOutputItem, Bool.and_eq_true] at hw1
-    simp only [mentionsItems, mentionsItem, Bool.or_eq_false_iff] at hm1
+    simp only [touchesItems, touchesItem, Bool.or_eq_false_iff] at hm1
     rw [evalDo, evalDo]
     obtain ⟨e1, P1⟩ := ih.evalDoStmt depth e n k s hn hS hw1.1 hm1.1 (hF.imp fun x hx => .here hx)
     rw [e1]; clear e1
@@ -704,13 +816,13 @@ theorem fok_of_bound {E : List Frame} {P : String → Prop}
 /-! ### definitions: creating a function evaluates nothing -/
 
 theorem weak_lambda (ops : NumOps) {t : String} (w : Value) (fuel depth : Nat) (args : List LArg) (body : Expr)
-    (k : Nat) (s : ES) (hm : mentions t (.lambda args body) = false) :
+    (k : Nat) (s : ES) (hm : touches t (.lambda args body) = false) :
     eval ops fuel depth (.lambda args body) (addT t w k s) =
       ((eval ops fuel depth (.lambda args body) s).1, addT t w k (eval ops fuel depth (.lambda args body) s).2) := by
   cases fuel with
   | zero => simp [eval]
   | succ fuel =>
-    simp only [mentions, Bool.or_eq_false_iff] at hm
+    simp only [touches] at hm
     rw [eval, eval]
     split
     · rfl
@@ -721,22 +833,22 @@ theorem weak_lambda (ops : NumOps) {t : String} (w : Value) (fuel depth : Nat) (
       intro y hy
       have hyt : y ≠ t := by
         intro e; subst e
-        have := freeVars_mentions body _ y hy
-        rw [hm.2] at this; cases this
+        have : (freeVars (args.map LArg.name) body).contains y = true := by simpa using hy
+        rw [hm] at this; cases this
       exact envGet_addAt t w hyt k s.env
     simp only [this]
     rfl
 
 theorem weak_definition (ops : NumOps) {t : String} (w : Value) (fuel depth : Nat) (nm : String)
     (args : List LArg) (body : Expr) (k : Nat) (s : ES) (hk : k < s.env.length)
-    (hm : mentions t (.assign nm (.lambda args body)) = false) :
+    (hm : touches t (.assign nm (.lambda args body)) = false) :
     eval ops fuel depth (.assign nm (.lambda args body)) (addT t w k s) =
       ((eval ops fuel depth (.assign nm (.lambda args body)) s).1,
        addT t w k (eval ops fuel depth (.assign nm (.lambda args body)) s).2) := by
   cases fuel with
   | zero => simp [eval]
   | succ fuel =>
-    rw [mentions, Bool.or_eq_false_iff, beq_eq_false_iff_ne] at hm
+    rw [touches, Bool.or_eq_false_iff, beq_eq_false_iff_ne] at hm
     have hcont : ∀ s : ES, alreadyDefined depth (addT t w k s).env nm = alreadyDefined depth s.env nm :=
       fun s => alreadyDefined_addAt t w hm.1 depth k s.env
     rw [eval, eval, hcont]
@@ -759,5 +871,637 @@ theorem weak_definition (ops : NumOps) {t : String} (w : Value) (fuel depth : Na
     · rename_i val _
       simp only [show (addT t w k s).nextId = s.nextId from rfl]
       rw [eq_assign_addT k s1 val nm _ hm.1 hk1]
+
+/-! ### evaluating twice: an evaluation that allocates no function cell leaves the state as it was -/
+
+mutual
+/-- no assignment that could write the current frame: `.assign` only inside function bodies
+    (run in the call's own frames) or do-blocks (whose frame is dropped afterwards) -/
+def assignFree : Expr → Bool
+  | .assign _ _ => false
+  | .lambda _ _ => true
+  | .doBlock _ _ => true
+  | .bin _ l r => assignFree l && assignFree r
+  | .un _ e => assignFree e
+  | .fact e => assignFree e
+  | .spread e => assignFree e
+  | .output e => assignFree e
+  | .call f args => assignFree f && assignFreeList args
+  | .access e i => assignFree e && assignFree i
+  | .dot e _ => assignFree e
+  | .cond c a b => assignFree c && assignFree a && assignFree b
+  | .list items => assignFreeItems items
+  | .record es => assignFreeEntries es
+  | _ => true
+def assignFreeList : List Expr → Bool
+  | [] => true
+  | e :: es => assignFree e && assignFreeList es
+def assignFreeItem : Item → Bool
+  | .mk _ e _ => assignFree e
+def assignFreeItems : List Item → Bool
+  | [] => true
+  | i :: is => assignFreeItem i && assignFreeItems is
+def assignFreeEntry : Entry → Bool
+  | .mk _ k v _ => assignFreeKey k && assignFree v
+def assignFreeEntries : List Entry → Bool
+  | [] => true
+  | e :: es => assignFreeEntry e && assignFreeEntries es
+def assignFreeKey : Key → Bool
+  | .dyn e => assignFree e
+  | .spread e => assignFree e
+  | _ => true
+end
+
+/-- without such an assignment the environment is returned exactly as it was, whatever the
+    outcome -/
+theorem env_same_group (ops : NumOps) : ∀ fuel : Nat,
+    (∀ depth e s, assignFree e = true → (eval ops fuel depth e s).2.env = s.env) ∧
+    (∀ depth es s, assignFreeList es = true → (evalList ops fuel depth es s).2.env = s.env) ∧
+    (∀ depth is s, assignFreeItems is = true → (evalItems ops fuel depth is s).2.env = s.env) ∧
+    (∀ depth es acc s, assignFreeEntries es = true → (evalEntries ops fuel depth es acc s).2.env = s.env) := by
+  intro fuel
+  induction fuel with
+  | zero => refine ⟨?_, ?_, ?_, ?_⟩ <;> intros <;> simp [eval, evalList, evalItems, evalEntries]
+  | succ fuel ih =>
+    obtain ⟨ihE, ihL, ihI, ihR⟩ := ih
+    refine ⟨?_, ?_, ?_, ?_⟩
+    · intro depth e s ha
+      cases e with
+      | assign n v => simp [assignFree] at ha
+      | doBlock stmts ret =>
+        rw [eval]
+        have hsb := (evalDo_keys ops fuel depth stmts ret { s with env := [] :: s.env }).below
+        have hdrop := hsb.drop_push
+        generalize evalDo ops fuel depth stmts ret { s with env := [] :: s.env } = p at hdrop ⊢
+        obtain ⟨r, s1⟩ := p
+        exact hdrop
+      | call f args =>
+        simp only [assignFree, Bool.and_eq_true] at ha
+        rw [eval]
+        have h1 := ihE depth f s ha.1
+        generalize eval ops fuel depth f s = p at h1 ⊢
+        obtain ⟨r1, s1⟩ := p
+        cases r1 with
+        | ok fv =>
+          dsimp only
+          have h2 := ihL depth args s1 ha.2
+          generalize evalList ops fuel depth args s1 = q at h2 ⊢
+          obtain ⟨r2, s2⟩ := q
+          cases r2 with
+          | ok raw =>
+            dsimp only
+            split
+            · exact h2.trans h1
+            · rw [callFn_env]; exact h2.trans h1
+          | _ => exact h2.trans h1
+        | _ => exact h1
+      | bin op l r =>
+        simp only [assignFree, Bool.and_eq_true] at ha
+        rw [eval]
+        have h1 := ihE depth l s ha.1
+        generalize eval ops fuel depth l s = p at h1 ⊢
+        obtain ⟨r1, s1⟩ := p
+        cases r1 with
+        | ok a =>
+          dsimp only
+          have h2 := ihE depth r s1 ha.2
+          generalize eval ops fuel depth r s1 = q at h2 ⊢
+          obtain ⟨r2, s2⟩ := q
+          cases r2 with
+          | ok b => dsimp only; rw [evalBin_env]; exact h2.trans h1
+          | _ => exact h2.trans h1
+        | _ => exact h1
+      | _ =>
+        simp only [assignFree, Bool.and_eq_true] at ha
+        rw [eval]
+        repeat' split
+        all_goals grind
+    · intro depth es s ha
+      cases es with
+      | nil => simp [evalList]
+      | cons e es =>
+        simp only [assignFreeList, Bool.and_eq_true] at ha
+        rw [evalList]
+        repeat' split
+        all_goals grind
+    · intro depth is s ha
+      cases is with
+      | nil => simp [evalItems]
+      | cons i is =>
+        obtain ⟨_, e, _⟩ := i
+        simp only [assignFreeItems, assignFreeItem, Bool.and_eq_true] at ha
+        rw [evalItems]
+        repeat' split
+        all_goals grind
+    · intro depth es acc s ha
+      cases es with
+      | nil => simp [evalEntries]
+      | cons en es =>
+        obtain ⟨_, key, value, _⟩ := en
+        simp only [assignFreeEntries, assignFreeEntry, Bool.and_eq_true] at ha
+        cases key <;> simp only [assignFreeKey] at ha <;> rw [evalEntries] <;> repeat' split
+        all_goals grind
+
+theorem eval_env_same (ops : NumOps) (fuel depth : Nat) (e : Expr) (s : ES) (ha : assignFree e = true) :
+    (eval ops fuel depth e s).2.env = s.env := (env_same_group ops fuel).1 depth e s ha
+
+/-- in a well-formed state (`StateOk`: every function cell in use and every named cell is below
+    the counter) an evaluation that allocates no cell gives no name -/
+theorem names_same_of_no_cell {s s' : ES} (hn : NamesExt s s') (hs' : StateOk s') (hid : s'.nextId = s.nextId) :
+    s'.names = s.names := by
+  obtain ⟨_, new, e, f⟩ := hn
+  have : new = [] := by
+    rw [List.eq_nil_iff_forall_not_mem]
+    intro p hp
+    have h1 := (f p hp).1
+    have h2 := hs'.names p (by rw [e]; exact List.mem_append_left _ hp)
+    omega
+  rw [e, this]; rfl
+
+/-- evaluation without a frame-level assignment that allocates no function cell returns the
+    state exactly as it was -/
+theorem eval_state_same (ops : NumOps) (fuel depth : Nat) (e : Expr) (s : ES) (hs : StateOk s)
+    (ha : assignFree e = true) (hid : (eval ops fuel depth e s).2.nextId = s.nextId) :
+    (eval ops fuel depth e s).2 = s := by
+  have h1 := eval_env_same ops fuel depth e s ha
+  have h3 := names_same_of_no_cell (eval_names ops fuel depth e s) (eval_fresh ops fuel depth e s hs).1 hid
+  generalize (eval ops fuel depth e s).2 = s1 at h1 h3 hid
+  cases s1; cases s
+  simp only at h1 h3 hid
+  subst h1 h3 hid
+  rfl
+
+/-! ### let-abstraction of the subexpression that is evaluated first -/
+
+section letabs
+variable {ops : NumOps} {t : String} {v : Value}
+
+/-- `e2`, evaluated with the extra binding `t ↦ v` in the innermost frame, runs as `e1` evaluated
+    without it: same outcome, same final state up to the extra binding; and the result of `e1`
+    keeps the closedness invariant -/
+abbrev LSim (ops : NumOps) (t : String) (v : Value) (fuel depth : Nat) (s : ES) (e1 e2 : Expr) : Prop :=
+  WSim t v 0 ClosedV s (eval ops fuel depth e1 s) (eval ops fuel depth e2 (addT t v 0 s))
+
+/-- the hole: `e'` evaluates to `v` and leaves the state as it was; the name `t`, bound to `v`,
+    evaluates to `v` -/
+theorem lsim_hole (ht : t ≠ "inputs") (hsp : t ∉ Gen.specialIdents) {fuel depth n : Nat} {s : ES} {e' : Expr}
+    (hn : 0 < n) (hS : WOK 0 s) (hw : noOutput e' = true) (hm : touches t e' = false)
+    (hF : FOK n s.env (FreeIn · e')) (h0 : eval ops fuel depth e' s = (.ok v, s)) :
+    LSim ops t v fuel depth s e' (.ident t) := by
+  have P := ((weak ops v ht fuel).eval depth e' n 0 s hn hS hw hm hF).2
+  refine ⟨?_, P⟩
+  rw [h0]
+  cases fuel with
+  | zero => simp [eval] at h0
+  | succ fuel =>
+    simp only [Gen.specialIdents, List.mem_cons, List.not_mem_nil, or_false, not_or] at hsp
+    have hg : envGet (addT t v 0 s).env t = some v := by
+      cases hs : s.env with
+      | nil => exact absurd hs hS.ne
+      | cons f r => simp [addT, hs, addAt, envGet, lookupAL]
+    rw [eval]
+    simp [hsp.1, hsp.2.1, hsp.2.2, hg]
+
+section congr
+variable (ht : t ≠ "inputs") {f depth n : Nat} {s : ES} {p1 p2 : Expr} (hn : 0 < n) (hS : WOK 0 s)
+  (ih : LSim ops t v f depth s p1 p2)
+include ht hn hS ih
+
+omit ht hn hS in
+theorem lsim_un (op : UnOp) : LSim ops t v (f + 1) depth s (.un op p1) (.un op p2) := by
+  show WSim _ _ _ _ _ _ _
+  rw [eval, eval]
+  obtain ⟨e1, P1⟩ := ih
+  rw [e1]; clear e1
+  generalize eval ops f depth p1 s = p at P1 ⊢
+  obtain ⟨r, s1⟩ := p
+  cases r with
+  | ok v =>
+    dsimp only
+    split <;> exact ⟨rfl, P1.re (by intro v h; cases h <;> simp)⟩
+  | _ => exact ⟨rfl, P1.re (by intro _ h; cases h)⟩
+
+omit ht hn hS in
+theorem lsim_fact : LSim ops t v (f + 1) depth s (.fact p1) (.fact p2) := by
+  show WSim _ _ _ _ _ _ _
+  rw [eval, eval]
+  obtain ⟨e1, P1⟩ := ih
+  rw [e1]; clear e1
+  generalize eval ops f depth p1 s = p at P1 ⊢
+  obtain ⟨r, s1⟩ := p
+  cases r with
+  | ok v =>
+    cases v with
+    | num x =>
+      dsimp only
+      split <;> exact ⟨rfl, P1.re (by intro v h; cases h <;> simp)⟩
+    | _ => exact ⟨rfl, P1.re (by intro _ h; cases h)⟩
+  | _ => exact ⟨rfl, P1.re (by intro _ h; cases h)⟩
+
+omit ht hn hS in
+theorem lsim_dot (field : String) : LSim ops t v (f + 1) depth s (.dot p1 field) (.dot p2 field) := by
+  show WSim _ _ _ _ _ _ _
+  rw [eval, eval]
+  obtain ⟨e1, P1⟩ := ih
+  rw [e1]; clear e1
+  generalize eval ops f depth p1 s = p at P1 ⊢
+  obtain ⟨r, s1⟩ := p
+  cases r with
+  | ok v =>
+    have hv := P1.val v rfl
+    cases v with
+    | record l =>
+      exact ⟨rfl, P1.re (by intro v h; cases h; exact closed_lookupAL_getD (by simpa using hv))⟩
+    | _ => exact ⟨rfl, P1.re (by intro _ h; cases h)⟩
+  | _ => exact ⟨rfl, P1.re (by intro _ h; cases h)⟩
+
+theorem lsim_binL (op : BinOp) {r : Expr} (hw : noOutput r = true) (hm : touches t r = false)
+    (hF : FOK n s.env (FreeIn · r)) : LSim ops t v (f + 1) depth s (.bin op p1 r) (.bin op p2 r) := by
+  have W := weak ops v ht f
+  have hE := hS.ne
+  show WSim _ _ _ _ _ _ _
+  rw [eval, eval]
+  obtain ⟨e1, P1⟩ := ih
+  rw [e1]; clear e1
+  generalize eval ops f depth p1 s = p at P1 ⊢
+  obtain ⟨r1, s1⟩ := p
+  cases r1 with
+  | ok a =>
+    dsimp only
+    have hS1 := hS.next P1
+    obtain ⟨e2, P2⟩ := W.eval depth r n 0 s1 hn hS1 hw hm (hF.step hn hE P1.keys)
+    rw [e2]; clear e2
+    generalize eval ops f depth r s1 = q at P2 ⊢
+    obtain ⟨r2, s2⟩ := q
+    cases r2 with
+    | ok b =>
+      dsimp only
+      have P12 := P1.trans P2
+      obtain ⟨e3, P3⟩ := evalBin_addT ops v ht f depth op a b 0 s2 (hS.next P12).cl
+        ((P1.val a rfl).mono P2.names) (P2.val b rfl)
+      rw [e3]
+      exact ⟨rfl, P12.trans P3.toPost⟩
+    | _ => exact ⟨rfl, (P1.trans P2).re (by intro _ h; cases h)⟩
+  | _ => exact ⟨rfl, P1.re (by intro _ h; cases h)⟩
+
+theorem lsim_access {i : Expr} (hw : noOutput i = true) (hm : touches t i = false)
+    (hF : FOK n s.env (FreeIn · i)) : LSim ops t v (f + 1) depth s (.access p1 i) (.access p2 i) := by
+  have W := weak ops v ht f
+  have hE := hS.ne
+  show WSim _ _ _ _ _ _ _
+  rw [eval, eval]
+  obtain ⟨e1, P1⟩ := ih
+  rw [e1]; clear e1
+  generalize eval ops f depth p1 s = p at P1 ⊢
+  obtain ⟨r1, s1⟩ := p
+  cases r1 with
+  | ok v =>
+    dsimp only
+    obtain ⟨e2, P2⟩ := W.eval depth i n 0 s1 hn (hS.next P1) hw hm (hF.step hn hE P1.keys)
+    rw [e2]; clear e2
+    generalize eval ops f depth i s1 = q at P2 ⊢
+    obtain ⟨r2, s2⟩ := q
+    cases r2 with
+    | ok iv =>
+      have hv := (P1.val v rfl).mono P2.names
+      have P12 := P1.trans P2
+      dsimp only
+      repeat' split
+      all_goals (
+        refine ⟨rfl, P12.re ?_⟩
+        intro _ h
+        cases h
+        all_goals first
+          | (simp; done)
+          | exact closed_lookupAL_getD (by simpa using hv)
+          | exact closed_listGetD (by simpa using hv) _)
+    | _ => exact ⟨rfl, (P1.trans P2).re (by intro _ h; cases h)⟩
+  | _ => exact ⟨rfl, P1.re (by intro _ h; cases h)⟩
+
+theorem lsim_cond {a b : Expr} (hwa : noOutput a = true) (hwb : noOutput b = true)
+    (hma : touches t a = false) (hmb : touches t b = false)
+    (hFa : FOK n s.env (FreeIn · a)) (hFb : FOK n s.env (FreeIn · b)) :
+    LSim ops t v (f + 1) depth s (.cond p1 a b) (.cond p2 a b) := by
+  have W := weak ops v ht f
+  have hE := hS.ne
+  show WSim _ _ _ _ _ _ _
+  rw [eval, eval]
+  obtain ⟨e1, P1⟩ := ih
+  rw [e1]; clear e1
+  generalize eval ops f depth p1 s = p at P1 ⊢
+  obtain ⟨r, s1⟩ := p
+  cases r with
+  | ok cv =>
+    cases cv with
+    | bool bv =>
+      cases bv
+      · obtain ⟨e2, P2⟩ := W.eval depth b n 0 s1 hn (hS.next P1) hwb hmb (hFb.step hn hE P1.keys)
+        dsimp only
+        rw [e2]
+        exact ⟨rfl, P1.trans P2⟩
+      · obtain ⟨e2, P2⟩ := W.eval depth a n 0 s1 hn (hS.next P1) hwa hma (hFa.step hn hE P1.keys)
+        dsimp only
+        rw [e2]
+        exact ⟨rfl, P1.trans P2⟩
+    | _ => exact ⟨rfl, P1.re (by intro _ h; cases h)⟩
+  | _ => exact ⟨rfl, P1.re (by intro _ h; cases h)⟩
+
+omit ht hn in
+theorem lsim_assign {nm : String} (hnt : nm ≠ t) :
+    LSim ops t v (f + 1) depth s (.assign nm p1) (.assign nm p2) := by
+  have hcont : ∀ s : ES, alreadyDefined depth (addT t v 0 s).env nm = alreadyDefined depth s.env nm :=
+    fun s => alreadyDefined_addAt t v hnt depth 0 s.env
+  show WSim _ _ _ _ _ _ _
+  rw [eval, eval, hcont s]
+  split
+  · exact ⟨rfl, Post.same hS.cl (by intro _ h; cases h)⟩
+  split
+  · exact ⟨rfl, Post.same hS.cl (by intro _ h; cases h)⟩
+  split
+  · exact ⟨rfl, Post.same hS.cl (by intro _ h; cases h)⟩
+  obtain ⟨e1, P1⟩ := ih
+  rw [e1]; clear e1
+  generalize eval ops f depth p1 s = p at P1 ⊢
+  obtain ⟨r, s1⟩ := p
+  cases r with
+  | ok val =>
+    dsimp only
+    rw [hcont s1]
+    split
+    · exact ⟨rfl, P1.re (by intro _ h; cases h)⟩
+    · simp only [show (addT t v 0 s).nextId = s.nextId from rfl]
+      exact ⟨by rw [eq_assign_addT 0 s1 val nm _ hnt (hS.next P1).len], post_assign nm _ P1⟩
+  | _ => exact ⟨rfl, P1.re (by intro _ h; cases h)⟩
+
+theorem lsim_callF {args : List Expr} (hw : noOutputList args = true) (hm : touchesList t args = false)
+    (hF : FOK n s.env (FreeInList · args)) : LSim ops t v (f + 1) depth s (.call p1 args) (.call p2 args) := by
+  have W := weak ops v ht f
+  have hE := hS.ne
+  show WSim _ _ _ _ _ _ _
+  rw [eval, eval]
+  obtain ⟨e1, P1⟩ := ih
+  rw [e1]; clear e1
+  generalize eval ops f depth p1 s = p at P1 ⊢
+  obtain ⟨r1, s1⟩ := p
+  cases r1 with
+  | ok fv =>
+    dsimp only
+    obtain ⟨e2, P2⟩ := W.evalList depth args n 0 s1 hn (hS.next P1) hw hm (hF.step hn hE P1.keys)
+    rw [e2]; clear e2
+    generalize evalList ops f depth args s1 = q at P2 ⊢
+    obtain ⟨r2, s2⟩ := q
+    cases r2 with
+    | ok raw =>
+      dsimp only
+      have P12 := P1.trans P2
+      split
+      · exact ⟨rfl, P12.re (by intro _ h; cases h)⟩
+      · have hfv := (P1.val fv rfl).mono P2.names
+        obtain ⟨e3, P3⟩ := callFn_addT ops v ht f fv fv (flattenSpreads raw) depth 0 s2 (hS.next P12).cl
+          hfv hfv (closedL_flattenSpreads (P2.val raw rfl))
+        rw [e3]
+        exact ⟨rfl, P12.trans P3.toPost⟩
+    | _ => exact ⟨rfl, (P1.trans P2).re (by intro _ h; cases h)⟩
+  | _ => exact ⟨rfl, P1.re (by intro _ h; cases h)⟩
+
+/-- the first argument of a call whose function expression leaves the state as it is (a
+    built-in, an identifier, a literal): `fn(□, rest…)` -/
+theorem lsim_callArg {fn : Expr} {rest : List Expr} (hwf : noOutput fn = true) (hmf : touches t fn = false)
+    (hFf : FOK n s.env (FreeIn · fn)) (hfn : (eval ops (f + 1) depth fn s).2 = s)
+    (hw : noOutputList rest = true) (hm : touchesList t rest = false)
+    (hF : FOK n s.env (FreeInList · rest)) :
+    LSim ops t v (f + 2) depth s (.call fn (p1 :: rest)) (.call fn (p2 :: rest)) := by
+  have W := weak ops v ht f
+  have hE := hS.ne
+  show WSim _ _ _ _ _ _ _
+  rw [eval, eval]
+  obtain ⟨e0, P0⟩ := (weak ops v ht (f + 1)).eval depth fn n 0 s hn hS hwf hmf hFf
+  rw [e0]; clear e0
+  generalize eval ops (f + 1) depth fn s = p0 at P0 hfn ⊢
+  obtain ⟨r0, s0⟩ := p0
+  simp only at hfn
+  subst hfn
+  cases r0 with
+  | ok fv =>
+    dsimp only
+    rw [evalList, evalList]
+    obtain ⟨e1, P1⟩ := ih
+    rw [e1]; clear e1
+    generalize eval ops f depth p1 s0 = p at P1 ⊢
+    obtain ⟨r1, s1⟩ := p
+    cases r1 with
+    | ok a =>
+      dsimp only
+      obtain ⟨e2, P2⟩ := W.evalList depth rest n 0 s1 hn (hS.next P1) hw hm (hF.step hn hE P1.keys)
+      rw [e2]; clear e2
+      generalize evalList ops f depth rest s1 = q at P2 ⊢
+      obtain ⟨r2, s2⟩ := q
+      cases r2 with
+      | ok raw =>
+        dsimp only
+        have P12 := P1.trans P2
+        split
+        · exact ⟨rfl, P12.re (by intro _ h; cases h)⟩
+        · have hfv := ((P0.val fv rfl).mono P1.names).mono P2.names
+          have hargs : ClosedL s2.names (a :: raw) :=
+            closedL_cons.mpr ⟨(P1.val a rfl).mono P2.names, P2.val raw rfl⟩
+          obtain ⟨e3, P3⟩ := callFn_addT ops v ht (f + 1) fv fv (flattenSpreads (a :: raw)) depth 0 s2
+            (hS.next P12).cl hfv hfv (closedL_flattenSpreads hargs)
+          rw [e3]
+          exact ⟨rfl, P12.trans P3.toPost⟩
+      | _ => exact ⟨rfl, (P1.trans P2).re (by intro _ h; cases h)⟩
+    | _ => exact ⟨rfl, P1.re (by intro _ h; cases h)⟩
+  | _ => exact ⟨rfl, P0.re (by intro _ h; cases h)⟩
+
+/-- the first item of a list literal: `[□, rest…]` -/
+theorem lsim_listHead {l : List String} {tr : Option String} {rest : List Item}
+    (hw : noOutputItems rest = true) (hm : touchesItems t rest = false)
+    (hF : FOK n s.env (FreeInItems · rest)) :
+    LSim ops t v (f + 2) depth s (.list (.mk l p1 tr :: rest)) (.list (.mk l p2 tr :: rest)) := by
+  have W := weak ops v ht f
+  have hE := hS.ne
+  show WSim _ _ _ _ _ _ _
+  rw [eval, eval, evalItems, evalItems]
+  obtain ⟨e1, P1⟩ := ih
+  rw [e1]; clear e1
+  generalize eval ops f depth p1 s = p at P1 ⊢
+  obtain ⟨r1, s1⟩ := p
+  cases r1 with
+  | ok a =>
+    dsimp only
+    obtain ⟨e2, P2⟩ := W.evalItems depth rest n 0 s1 hn (hS.next P1) hw hm (hF.step hn hE P1.keys)
+    rw [e2]; clear e2
+    generalize evalItems ops f depth rest s1 = q at P2 ⊢
+    obtain ⟨r2, s2⟩ := q
+    cases r2 with
+    | ok vs =>
+      refine ⟨rfl, (P1.trans P2).re ?_⟩
+      intro v' hv'
+      cases hv'
+      have : ClosedL s2.names (a :: vs) := closedL_cons.mpr ⟨(P1.val a rfl).mono P2.names, P2.val vs rfl⟩
+      simpa using closedL_flattenSpreads this
+    | _ => exact ⟨rfl, (P1.trans P2).re (by intro _ h; cases h)⟩
+  | _ => exact ⟨rfl, P1.re (by intro _ h; cases h)⟩
+
+end congr
+
+/-- running on with more fuel than needed is not covered: fuel is part of the statement -/
+theorem lsim_eq {fuel depth : Nat} {s : ES} {e1 e2 : Expr} (h : LSim ops t v fuel depth s e1 e2) :
+    eval ops fuel depth e2 (addT t v 0 s) =
+      ((eval ops fuel depth e1 s).1, addT t v 0 (eval ops fuel depth e1 s).2) := h.1
+
+end letabs
+
+/-! #### contexts whose hole is evaluated first, exactly once, before anything else -/
+
+/-- `□`, `op □`, `□!`, `□.f`, `□ op r`, `□[i]`, `if □ then a else b`, `x = □`, `□(args…)`,
+    `fn(□, rest…)` with `fn` a built-in / identifier / literal, `[□, rest…]` — nested -/
+inductive LCtx where
+  | hole
+  | un (op : UnOp) (c : LCtx)
+  | fact (c : LCtx)
+  | dot (c : LCtx) (field : String)
+  | binL (op : BinOp) (c : LCtx) (r : Expr)
+  | access (c : LCtx) (i : Expr)
+  | cond (c : LCtx) (a b : Expr)
+  | assign (nm : String) (c : LCtx)
+  | callF (c : LCtx) (args : List Expr)
+  | callArg (fn : Expr) (c : LCtx) (rest : List Expr)
+  | listHead (l : List String) (c : LCtx) (tr : Option String) (rest : List Item)
+
+/-- the context with the hole filled -/
+def LCtx.plug : LCtx → Expr → Expr
+  | .hole, e => e
+  | .un op c, e => .un op (c.plug e)
+  | .fact c, e => .fact (c.plug e)
+  | .dot c field, e => .dot (c.plug e) field
+  | .binL op c r, e => .bin op (c.plug e) r
+  | .access c i, e => .access (c.plug e) i
+  | .cond c a b, e => .cond (c.plug e) a b
+  | .assign nm c, e => .assign nm (c.plug e)
+  | .callF c args, e => .call (c.plug e) args
+  | .callArg fn c rest, e => .call fn (c.plug e :: rest)
+  | .listHead l c tr rest, e => .list (.mk l (c.plug e) tr :: rest)
+
+/-- how many evaluator steps lie above the hole (the fuel they use) -/
+def LCtx.depth : LCtx → Nat
+  | .hole => 0
+  | .un _ c => c.depth + 1
+  | .fact c => c.depth + 1
+  | .dot c _ => c.depth + 1
+  | .binL _ c _ => c.depth + 1
+  | .access c _ => c.depth + 1
+  | .cond c _ _ => c.depth + 1
+  | .assign _ c => c.depth + 1
+  | .callF c _ => c.depth + 1
+  | .callArg _ c _ => c.depth + 2
+  | .listHead _ c _ _ => c.depth + 2
+
+/-- expressions whose evaluation never changes the state: literals, built-ins, identifiers -/
+def simpleHead : Expr → Bool
+  | .num _ | .str _ | .bool _ | .null | .builtin _ | .ident _ | .inref _ => true
+  | _ => false
+
+/-- in `fn(□, …)` the function expression is evaluated before the hole: it has to be simple -/
+def LCtx.simpleHeads : LCtx → Bool
+  | .hole => true
+  | .un _ c => c.simpleHeads
+  | .fact c => c.simpleHeads
+  | .dot c _ => c.simpleHeads
+  | .binL _ c _ => c.simpleHeads
+  | .access c _ => c.simpleHeads
+  | .cond c _ _ => c.simpleHeads
+  | .assign _ c => c.simpleHeads
+  | .callF c _ => c.simpleHeads
+  | .callArg fn c _ => simpleHead fn && c.simpleHeads
+  | .listHead _ c _ _ => c.simpleHeads
+
+theorem simpleHead_state (ops : NumOps) (fuel depth : Nat) (e : Expr) (s : ES) (h : simpleHead e = true) :
+    (eval ops fuel depth e s).2 = s := by
+  cases fuel with
+  | zero => simp [eval]
+  | succ fuel =>
+    cases e <;> simp only [simpleHead, Bool.false_eq_true] at h <;> rw [eval]
+    all_goals repeat' split
+    all_goals rfl
+
+/-- LET-ABSTRACTION of the subexpression that is evaluated first: `C[e']` evaluated in `s`, and
+    `C[t]` evaluated in `s` with `t ↦ v` added to the innermost frame, where `v` is the value of
+    `e'` in `s` and evaluating `e'` left the state as it was -/
+theorem let_abstraction_ctx (ops : NumOps) {t : String} {v : Value} (ht : t ≠ "inputs")
+    (hsp : t ∉ Gen.specialIdents) {fuel0 depth n : Nat} {s : ES} {e' : Expr} (hn : 0 < n) (hS : WOK 0 s)
+    (h0 : eval ops fuel0 depth e' s = (.ok v, s)) :
+    ∀ (c : LCtx), c.simpleHeads = true → noOutput (c.plug e') = true → touches t (c.plug e') = false →
+      FOK n s.env (FreeIn · (c.plug e')) →
+      LSim ops t v (fuel0 + c.depth) depth s (c.plug e') (c.plug (.ident t))
+  | .hole, _, hw, hm, hF => lsim_hole ht hsp hn hS hw hm hF h0
+  | .un op c, hc, hw, hm, hF => by
+    simp only [LCtx.plug, noOutput, touches, LCtx.simpleHeads] at hw hm hc ⊢
+    exact lsim_un (let_abstraction_ctx ops ht hsp hn hS h0 c hc hw hm (hF.imp fun x hx => .un hx)) op
+  | .fact c, hc, hw, hm, hF => by
+    simp only [LCtx.plug, noOutput, touches, LCtx.simpleHeads] at hw hm hc ⊢
+    exact lsim_fact (let_abstraction_ctx ops ht hsp hn hS h0 c hc hw hm (hF.imp fun x hx => .fact hx))
+  | .dot c field, hc, hw, hm, hF => by
+    simp only [LCtx.plug, noOutput, touches, LCtx.simpleHeads] at hw hm hc ⊢
+    exact lsim_dot (let_abstraction_ctx ops ht hsp hn hS h0 c hc hw hm (hF.imp fun x hx => .dot hx)) field
+  | .binL op c r, hc, hw, hm, hF => by
+    simp only [LCtx.plug, noOutput, touches, LCtx.simpleHeads, Bool.and_eq_true, Bool.or_eq_false_iff]
+      at hw hm hc ⊢
+    exact lsim_binL ht hn hS
+      (let_abstraction_ctx ops ht hsp hn hS h0 c hc hw.1 hm.1 (hF.imp fun x hx => .binL hx)) op hw.2 hm.2
+      (hF.imp fun x hx => .binR hx)
+  | .access c i, hc, hw, hm, hF => by
+    simp only [LCtx.plug, noOutput, touches, LCtx.simpleHeads, Bool.and_eq_true, Bool.or_eq_false_iff]
+      at hw hm hc ⊢
+    exact lsim_access ht hn hS
+      (let_abstraction_ctx ops ht hsp hn hS h0 c hc hw.1 hm.1 (hF.imp fun x hx => .accessE hx)) hw.2 hm.2
+      (hF.imp fun x hx => .accessI hx)
+  | .cond c a b, hc, hw, hm, hF => by
+    simp only [LCtx.plug, noOutput, touches, LCtx.simpleHeads, Bool.and_eq_true, Bool.or_eq_false_iff]
+      at hw hm hc ⊢
+    exact lsim_cond ht hn hS
+      (let_abstraction_ctx ops ht hsp hn hS h0 c hc hw.1.1 hm.1.1 (hF.imp fun x hx => .condC hx))
+      hw.1.2 hw.2 hm.1.2 hm.2 (hF.imp fun x hx => .condT hx) (hF.imp fun x hx => .condE hx)
+  | .assign nm c, hc, hw, hm, hF => by
+    simp only [LCtx.plug, noOutput, touches, LCtx.simpleHeads, Bool.or_eq_false_iff, beq_eq_false_iff_ne]
+      at hw hm hc ⊢
+    exact lsim_assign hS
+      (let_abstraction_ctx ops ht hsp hn hS h0 c hc hw hm.2 (hF.imp fun x hx => .assign hx)) hm.1
+  | .callF c args, hc, hw, hm, hF => by
+    simp only [LCtx.plug, noOutput, touches, LCtx.simpleHeads, Bool.and_eq_true, Bool.or_eq_false_iff]
+      at hw hm hc ⊢
+    exact lsim_callF ht hn hS
+      (let_abstraction_ctx ops ht hsp hn hS h0 c hc hw.1 hm.1 (hF.imp fun x hx => .callF hx)) hw.2 hm.2
+      (hF.imp fun x hx => .callA hx)
+  | .callArg fn c rest, hc, hw, hm, hF => by
+    simp only [LCtx.plug, noOutput, noOutputList, touches, touchesList, LCtx.simpleHeads, Bool.and_eq_true,
+      Bool.or_eq_false_iff] at hw hm hc ⊢
+    exact lsim_callArg ht hn hS
+      (let_abstraction_ctx ops ht hsp hn hS h0 c hc.2 hw.2.1 hm.2.1 (hF.imp fun x hx => .callA (.head hx)))
+      hw.1 hm.1 (hF.imp fun x hx => .callF hx) (simpleHead_state ops _ depth fn s hc.1) hw.2.2 hm.2.2
+      (hF.imp fun x hx => .callA (.tail hx))
+  | .listHead l c tr rest, hc, hw, hm, hF => by
+    simp only [LCtx.plug, noOutput, noOutputItems, noOutputItem, touches, touchesItems, touchesItem,
+      LCtx.simpleHeads, Bool.and_eq_true, Bool.or_eq_false_iff] at hw hm hc ⊢
+    exact lsim_listHead ht hn hS
+      (let_abstraction_ctx ops ht hsp hn hS h0 c hc hw.1 hm.1 (hF.imp fun x hx => .list (.head hx)))
+      hw.2 hm.2 (hF.imp fun x hx => .list (.tail hx))
+
+/-! ### concrete values for the examples of Props/C02.lean -/
+
+namespace C02Ex
+
+/-- `g = (t) => [t, y]` which captured `y ↦ 1` (C04's closed example function; its parameter is
+    called `t`), and `a ↦ "arg"` -/
+def exS : ES := { env := [[("g", C04Ex.exG), ("a", .str "arg")]], nextId := 3, names := [] }
+
+/-- `[g(a), map([a], (x) => g(x))]`: calls a captured closure, and the higher-order built-in
+    `map` with a lambda callback that calls the closure again -/
+def exE : Expr :=
+  .list [it (.call (.ident "g") [.ident "a"]),
+         it (.call (.builtin "map") [.list [it (.ident "a")],
+               .lambda [.req "x"] (.call (.ident "g") [.ident "x"])])]
+
+end C02Ex
 
 end Blots
